@@ -264,7 +264,7 @@ fn gen(bits: u32) -> Vec<Ty> {
     let mut mid = Ty {
         name: "Mid".into(),
         header: if two_params {
-            "Mid(T <- Leaf, U <- Leaf)".into()
+            "Mid(T <- Leaf, A <- Leaf)".into()
         } else if generic {
             "Mid(T <- Leaf)".into()
         } else {
@@ -278,7 +278,7 @@ fn gen(bits: u32) -> Vec<Ty> {
     if f(11) {
         // a second (and a clustered third) field typed with the same parameter / type
         if two_params {
-            mid.subs.push(Sub { name: "s2", size: None, ty: other_concrete.into(), ty_txt: "U".into() });
+            mid.subs.push(Sub { name: "s2", size: None, ty: other_concrete.into(), ty_txt: "A".into() });
         } else {
             mid.subs.push(Sub { name: "s2", size: None, ty: inner_concrete.into(), ty_txt: if generic { "T".into() } else { inner_concrete.into() } });
         }
@@ -636,7 +636,7 @@ impl Property for C18 {
     }
     fn rule(&self, tier: Tier) -> String {
         format!(
-            "conformance: all 2^{NBITS} = 65536 documents of the feature-bit grammar (cluster gates, generic Mid with one or two type arguments (bound to different types), inherited argument type, several fields typed with the same parameter, submodule clusters incl. size one, a type inheriting gates / submodules / connections with and without own additions, a second level of inheritance, a generic whose interface contains an instantiated generic submodule, nested/cluster/indexed connections with and without link, inherited cluster element type, cluster-to-cluster and indexed connections at the top level, the same gate pair stated twice: verbatim, as an indexed restatement of a group statement, and by a child type restating an inherited connection, endpoints three segments deep (a grandchild's gate, plain and through clusters)) built with nodes_from_ndl (every 16th document: as an Ndl module block below a scope of a simulation that already has a node) and compared with a reference elaborator (modules with registered software, gate clusters, connections incl. link metrics and queue size); \
+            "conformance: all 2^{NBITS} = 65536 documents of the feature-bit grammar (cluster gates, generic Mid with one or two type arguments (bound to different types; the two parameters are declared in non-alphabetical order), inherited argument type, several fields typed with the same parameter, submodule clusters incl. size one, a type inheriting gates / submodules / connections with and without own additions, a second level of inheritance, a generic whose interface contains an instantiated generic submodule, nested/cluster/indexed connections with and without link, inherited cluster element type, cluster-to-cluster and indexed connections at the top level, the same gate pair stated twice: verbatim, as an indexed restatement of a group statement, and by a child type restating an inherited connection, endpoints three segments deep (a grandchild's gate, plain and through clusters)) built with nodes_from_ndl (every 16th document: as an Ndl module block below a scope of a simulation that already has a node) and compared with a reference elaborator (modules with registered software, gate clusters, connections incl. link metrics and queue size); \
              semantic mutations: {} single-point mutations (one per error cause of the statement) applied to {} generated documents, each must yield an error; \
              textual mutations: every scalar of {} base documents replaced by each of {} garbled/dangling tokens, outcome must be a network or an error, never a panic; \
              non-trivial = document that has at least one connection (conformance) or every mutated document (totality)",
